@@ -20,6 +20,8 @@ except Exception:
 
 
 _CASES = None
+MAX_WRAPPED = 48
+SKIPPED = []
 
 
 def cases():
@@ -28,10 +30,18 @@ def cases():
         conv = real_converter()
         allc, _ = classlemmas.all_cases(conv)
         _CASES = {}
-        for c in classlemmas.wrapper_cases(allc) + list(classlemmas.HAND_CASES):
-            c.cands = classlemmas.alias_candidates(c) + _near_spellings(c) + ["x-future", "futureHint", ""]
-            c.tmin = classlemmas.SPEC_sample_for(c, maximal=False)
-            c.tmax = classlemmas.SPEC_sample_for(c, maximal=True)
+        todo = classlemmas.wrapper_cases(allc) + list(classlemmas.HAND_CASES)
+        # a change that wraps the function of EVERY class gives hundreds of cases: the first MAX_WRAPPED (metamodel
+        # order) are analysed, with the alias-like candidates only; a few hand-written class hooks get near-spellings too
+        many = len(todo) > MAX_WRAPPED
+        SKIPPED[:] = [c.name for c in todo[MAX_WRAPPED:]]
+        for c in todo[:MAX_WRAPPED]:
+            c.cands = classlemmas.alias_candidates(c)[: (6 if many else None)] + ([] if many else _near_spellings(c)) + ["x-future", "futureHint", ""]
+            try:
+                c.tmin = classlemmas.SPEC_sample_for(c, maximal=False)
+                c.tmax = classlemmas.SPEC_sample_for(c, maximal=True)
+            except Exception:
+                continue  # no template for this class (package envelope referencing a non-metamodel class)
             c.hook = conv.get_structure_hook(c.cls)
             c.unhook = conv.get_unstructure_hook(c.cls)
             c.nodes_min, c.nodes_max = _object_nodes(c.tmin), _object_nodes(c.tmax)
@@ -67,6 +77,9 @@ def _object_nodes(j, path=()):
 
 def _with_extra_at(j, path, name, payload, first):
     if not path:
+        if first == 2:  # between the declared members
+            items = list(j.items())
+            return dict(items[:1] + [(name, payload)] + items[1:])
         return ({name: payload, **j} if first else {**j, name: payload})
     if isinstance(j, dict):
         return {k: (_with_extra_at(v, path[1:], name, payload, first) if k == path[0] else v) for k, v in j.items()}
@@ -78,13 +91,13 @@ def extra_at_node_ok(name, k, maximal, node, pos):
     c = cases()[name]
     maximal = concretize(maximal, 2)
     nodes = c.nodes_max if maximal else c.nodes_min
-    k, node, pos = concretize(k, len(c.cands)), concretize(node, len(nodes)), concretize(pos, 2)
+    k, node, pos = concretize(k, len(c.cands)), concretize(node, len(nodes)), concretize(pos, 3)
     with NoTracing():
         base = dict(c.tmax if maximal else c.tmin)
         cand = c.cands[k]
         if not nodes[node] and cand in base:
             return True
-        j = _with_extra_at(base, nodes[node], cand, ["alias-payload"], pos == 0)
+        j = _with_extra_at(base, nodes[node], cand, ["alias-payload"], {0: True, 1: False, 2: 2}[pos])
         return _out(c, j) == _out(c, base)
 
 
